@@ -4,6 +4,7 @@ from dsim.simdrv import ManualRun, Violation, DomainSpec
 from dsim.runner import Result, finish, run_guarded
 
 ID = "C17"
+HANG_IS_VIOLATION = True       # (a primitive wired to itself oscillates for ever)
 TITLE = "Clock-domain-crossing primitives meet their latency and pulse contracts"
 RULE = ("case = (primitive in {FFSynchronizer, AsyncFFSynchronizer, ResetSynchronizer, PulseSynchronizer}, width 0..8, "
         "stages 2..5, init, clock edges, async_edge, scheduler order, explicit step list over {input writes, level changes "
@@ -194,6 +195,9 @@ def gen_case(seed, tier):
     if kind in ("ff", "pulse") and fl.random() < 0.3:
         config["platform"] = fl.choice(["xc7", "xc6s", "xc3s"])
     config["vendor"] = {"platform": fl.choice(vendors.NAMES), "castable": fl.choice([None, None, "enum", "struct"])}
+    if kind in ("async", "reset") and not config.get("shadow_neg"):
+        names = [n_ for n_ in ("async_ff", "reset_sync", "src") if n_ != config.get("o_name")]
+        config["i_reset_of"] = fl.choice([None, None] + names)
     return case
 
 
@@ -404,17 +408,21 @@ def run_case(case):
                 P["ff_signed_input_wider_output"] = 1
         domains = [DomainSpec("o", edge=config["o_edge"]), DomainSpec("x")]
     elif kind == "async":
-        i = Signal(name="i")
+        from amaranth.hdl import ResetSignal
+        irn = config.get("i_reset_of")      # the asynchronous input is the reset of another domain (of any name), late bound
+        i = ResetSignal(irn) if irn else Signal(name="i")
         o = Signal(name="o")
         dut = cdc.AsyncFFSynchronizer(i, o, o_domain=config.get("o_name", "o"), stages=stages, async_edge=config["async_edge"])
-        domains = [DomainSpec(config.get("o_name", "o")), DomainSpec("x")]
-        extra_lines = {"a": i}
+        domains = [DomainSpec(config.get("o_name", "o")), DomainSpec("x")] + ([DomainSpec(irn)] if irn else [])
+        extra_lines = None if irn else {"a": i}
         P.update(async_short_pulse=0, reassert_during_release=0, released=0, assert_coincident_with_edge=0)
     elif kind == "reset":
-        i = Signal(name="arst")
+        from amaranth.hdl import ResetSignal
+        irn = config.get("i_reset_of")
+        i = ResetSignal(irn) if irn else Signal(name="arst")
         dut = cdc.ResetSynchronizer(i, domain=config.get("o_name", "o"), stages=stages)
-        domains = [DomainSpec(config.get("o_name", "o"), drive_rst=False), DomainSpec("x")]
-        extra_lines = {"a": i}
+        domains = [DomainSpec(config.get("o_name", "o"), drive_rst=False), DomainSpec("x")] + ([DomainSpec(irn)] if irn else [])
+        extra_lines = None if irn else {"a": i}
         o = None
         P.update(async_short_pulse=0, reassert_during_release=0, released=0, assert_coincident_with_edge=0)
     else:
@@ -485,7 +493,7 @@ def run_case(case):
         for d in domains:
             lv[d["name"]] = 0
         lv.setdefault("o", 0)
-        if extra_lines:
+        if extra_lines or config.get("i_reset_of"):
             lv["a"] = 0
         if kind == "ff":
             lv["r"] = 0
@@ -558,7 +566,7 @@ def run_case(case):
                         continue
                     lv[nme] = lvl
                     if nme == "a":
-                        changes["a"] = lvl
+                        changes[(config["i_reset_of"] + ".rst") if config.get("i_reset_of") else "a"] = lvl
                         a_change = lvl
                     elif nme == "r":
                         changes["o.rst"] = lvl
@@ -571,7 +579,7 @@ def run_case(case):
                 if clk_changes == 2 or (clk_changes >= 1 and a_change is not None):
                     stats["faults"]["coincide"] += 1
                 if clk_changes == 1:
-                    nm = next(k for k in changes if k != "a")
+                    nm = next(k for k in changes if k.endswith(".clk"))
                     if same[0] == nm:
                         same[1] += 1
                         if same[1] == 4:
